@@ -1216,6 +1216,7 @@ func (fr *Frame) execBlock(b *ssa.BasicBlock, st *State) {
 			for _, r := range in.Results {
 				vals = append(vals, fr.get(r))
 			}
+			fr.atReturnClauses(in, b, st, vals)
 			fr.rets = append(fr.rets, retInfo{st, vals, b})
 			return
 		case *ssa.Panic:
@@ -2211,4 +2212,56 @@ func internString(v string) int64 {
 	id := int64(1000000 + len(stringTable))
 	stringTable[v] = id
 	return id
+}
+
+// atReturnClauses: "atreturn K [label] expr" - a postcondition of the K-th return
+// statement only (source order, 0-based), evaluated at that statement with the
+// function's locals in scope and the result names bound to the returned values.
+func (fr *Frame) atReturnClauses(in *ssa.Return, b *ssa.BasicBlock, st *State, vals []Val) {
+	c := fr.c
+	if !fr.top || fr.fc == nil || c.specMode > 0 {
+		return
+	}
+	has := false
+	for _, cl := range fr.fc.Clauses {
+		if cl.Kind == "atreturn" {
+			has = true
+		}
+	}
+	if !has {
+		return
+	}
+	var rets []token.Pos
+	for _, blk := range fr.fn.Blocks {
+		for _, i2 := range blk.Instrs {
+			if r, ok := i2.(*ssa.Return); ok && r.Pos().IsValid() {
+				rets = append(rets, r.Pos())
+			}
+		}
+	}
+	sort.Slice(rets, func(i, j int) bool { return rets[i] < rets[j] })
+	ord := -1
+	for k, p := range rets {
+		if p == in.Pos() {
+			ord = k
+		}
+	}
+	for _, cl := range fr.fc.Clauses {
+		if cl.Kind != "atreturn" || cl.Loop != ord {
+			continue
+		}
+		env := fr.envAt(b, st, nil)
+		env.atLatch = true
+		env.old = fr.old
+		if env.bound == nil {
+			env.bound = map[string]Val{}
+		}
+		for i, v := range vals {
+			if i < len(fr.fc.Results) {
+				env.bound[fr.fc.Results[i]] = v
+			}
+		}
+		g := c.evalBool(env, cl.Expr)
+		c.oblige(st, "post", cl.Label, cl.Props, g, in.Pos(), fmt.Sprintf("at return statement %d: %s", ord, cl.Src))
+	}
 }
